@@ -1,0 +1,15 @@
+//go:build verif
+
+package nodes
+
+// VerifJoinRecv, when non-nil, is called by StreamJoin.Run and OuterJoin.Run every time their receive loop
+// takes a message from one of the two input channels (closed=false) or observes that channel closed
+// (closed=true). A test harness uses it to release exactly one source message at a time, i.e. to choose the
+// interleaving of the two inputs. Only compiled with the `verif` build tag.
+var VerifJoinRecv func(left bool, closed bool)
+
+func verifJoinRecv(left bool, closed bool) {
+	if f := VerifJoinRecv; f != nil {
+		f(left, closed)
+	}
+}
